@@ -73,7 +73,7 @@ impl PerAppenderFilter {
 /// A logger name matches an event target if it is the target itself or a
 /// module-path ancestor of it: `my_app` matches `my_app` and `my_app::db`,
 /// but not `my_apple`.
-fn target_matches_prefix(target: &str, prefix: &str) -> bool {
+pub(crate) fn target_matches_prefix(target: &str, prefix: &str) -> bool {
   target
     .strip_prefix(prefix)
     .map_or(false, |rest| rest.is_empty() || rest.starts_with("::"))
